@@ -24,7 +24,9 @@ func vxUniverse() [][]types.Type {
 	b := types.NewNamed(types.NewTypeName(0, pkg, "B", nil), types.NewStruct(nil, nil), nil)
 	pa, pb := types.NewPointer(a), types.NewPointer(b)
 	i, s := types.Typ[types.Int], types.Typ[types.String]
-	return [][]types.Type{{pa, pa}, {pb, pb}, {i, i}, {s, s}}
+	_ = s
+	// the last list is a proper prefix of the first (the curried one-argument form next to the two-argument form)
+	return [][]types.Type{{pa, pa}, {pb, pb}, {i, i}, {pa}}
 }
 
 func vxSameTyps(a, b []types.Type) bool {
